@@ -24,6 +24,12 @@ type Result struct {
 	NonTrivial bool   // by the property's stated rule
 	Sig        string // violation signature (call site + input class); "" = held
 	Msg        string // human-readable description of the violation
+	Tags       []string // extra counters for the coverage record (generator classes, strategies)
+}
+
+func (r Result) tag(tags ...string) Result {
+	r.Tags = append(r.Tags, tags...)
+	return r
 }
 
 func ok(class string, nontrivial bool) Result { return Result{Class: class, NonTrivial: nontrivial} }
@@ -205,6 +211,9 @@ type Check[C any] struct {
 // finding.
 func handle[C any](col *stats.Collector, prop, test string, c C, res Result) string {
 	col.Case(res.Class, res.NonTrivial, c)
+	for _, tg := range res.Tags {
+		col.Oracle("tag:" + tg)
+	}
 	if res.Msg == "" {
 		col.Oracle("held")
 		return ""
